@@ -534,13 +534,27 @@ func (cs *ChainState) PruneOldData(stateRoot types.StateRoot, headerHash types.H
 	}
 	cutoff := len(cs.persistedEntries) - fuzzenv.FuzzPersistentRetainBlocks
 	fuzzMemoryOnly := fuzzenv.Enabled()
+	// a block imported again (re-executed on its restored parent) is recorded twice, and two
+	// blocks may share a state root: data still referenced by a retained entry must be kept
+	retainedRoots := make(map[types.StateRoot]bool, fuzzenv.FuzzPersistentRetainBlocks)
+	retainedBlocks := make(map[types.HeaderHash]bool, fuzzenv.FuzzPersistentRetainBlocks)
+	for _, kept := range cs.persistedEntries[cutoff:] {
+		retainedRoots[kept.stateRoot] = true
+		retainedBlocks[kept.headerHash] = true
+	}
 	for _, old := range cs.persistedEntries[:cutoff] {
-		cs.repo.DeleteStateData(cs.repo.Database(), old.stateRoot)
-		cs.repo.DeleteBlock(cs.repo.Database(), old.headerHash, old.slot)
-		if !fuzzMemoryOnly {
-			cs.persistentRepo.DeleteStateData(cs.persistentRepo.Database(), old.stateRoot)
-			cs.persistentRepo.DeleteBlockByHash(cs.persistentRepo.Database(), types.OpaqueHash(old.headerHash))
-			cs.persistentRepo.DeleteHeaderTimeSlot(cs.persistentRepo.Database(), old.headerHash)
+		if !retainedRoots[old.stateRoot] {
+			cs.repo.DeleteStateData(cs.repo.Database(), old.stateRoot)
+			if !fuzzMemoryOnly {
+				cs.persistentRepo.DeleteStateData(cs.persistentRepo.Database(), old.stateRoot)
+			}
+		}
+		if !retainedBlocks[old.headerHash] {
+			cs.repo.DeleteBlock(cs.repo.Database(), old.headerHash, old.slot)
+			if !fuzzMemoryOnly {
+				cs.persistentRepo.DeleteBlockByHash(cs.persistentRepo.Database(), types.OpaqueHash(old.headerHash))
+				cs.persistentRepo.DeleteHeaderTimeSlot(cs.persistentRepo.Database(), old.headerHash)
+			}
 		}
 	}
 	cs.persistedEntries = cs.persistedEntries[cutoff:]
